@@ -1753,6 +1753,21 @@ func (w *world) storm() {
 			}
 		}(f)
 	}
+	// the node's own watchers report some of the messages as well (entries with an own observation
+	// are the ones the cleanup pass looks guardians' heartbeats up for when a signature is missing)
+	wg.Add(1)
+	go func() {
+		defer wg.Done()
+		for k := 0; k < 8; k++ {
+			d := decodeMsg(encodeMsg(k%14, 0, 0, 0, k%4, (k/4)%2))
+			select {
+			case w.lockC <- d.publication():
+			case <-w.runDone:
+				return
+			}
+			time.Sleep(900 * time.Millisecond)
+		}
+	}()
 	// peers' finished VAAs and guardian-set updates arrive meanwhile on their own channels
 	inbound := make([][]byte, 0, 12)
 	for k := 0; k < 12; k++ {
